@@ -66,6 +66,7 @@ func runC10(c *core.Ctx) {
 	})
 	pay := &codecs.H264Payloader{DisableStapA: opts.disableStapA}
 	state := 0
+	memo := &h264Memo{}
 	var expected [][]byte // units the receiver must reproduce, in order
 	var fp []uint64
 	nontrivial := false
@@ -78,6 +79,12 @@ func runC10(c *core.Ctx) {
 	c.Logf("config=%s mtu=%d stapA=%v avc=%v AUs=%d", c.Config, mtu, !opts.disableStapA, avc, nAU)
 	cons := &h264Consumer{c: c, mtu: mtu, stapA: !opts.disableStapA}
 	varyMTU := !foreign && mtu < 2000 && t.Chance(1, 6)
+	hugeCount := !foreign && !varyMTU && t.Chance(1, 1500)
+	if hugeCount {
+		mtu = 3 + t.Intn(2)
+		cons.mtu = mtu
+		loop.MaxEvt = 600000
+	}
 	var sendAU func(k int)
 	sendAU = func(k int) {
 		if k >= nAU {
@@ -91,7 +98,14 @@ func runC10(c *core.Ctx) {
 		if varyMTU && gmtu > 999 {
 			gmtu = 999 // no jumbo units in runs whose MTU may drop to 3 later: a 66 KB unit at 1 byte per fragment outgrows the event budget
 		}
-		au := genH264AUx(t, gmtu, !foreign, &state, supersede)
+		au := genH264AUm(t, gmtu, !foreign, &state, supersede, memo)
+		if hugeCount && k == 0 && state == 0 {
+			// one unit that needs more than 65535 FU-A fragments (mtu-2 bytes each)
+			u := append([]byte{byte(t.Intn(4))<<5 | 5}, nalBody(t, (65530+t.Intn(3000))*(mtu-2))...)
+			au.units = [][]byte{u}
+			au.annexb = annexB(t, au.units)
+			c.Probe("unit-needing-more-than-65535-fragments")
+		}
 		if state != 0 {
 			c.Probe("sps-one-call-pps-next")
 			nontrivial = true
